@@ -63,6 +63,13 @@ Whole(m)      == m % 4 = 0
 CountWhole(m, n)     == Whole(m) => n = m \div 4
 CountFloorCeil(m, n) == n \in {m \div 4, CeilDiv(m, 4)}
 
+\* Which step a constructor call denotes (c.st: a step argument is passed, and it is c.s): the step argument whenever
+\* there is one -- create_time_range: "If both step and samplerate are provided, step takes precedence"; create_range_dim
+\* derives a step from size only "if step is None" -- else 1/samplerate, else (stop - a)/size.
+Denoted(c) == IF c.st THEN c.s
+              ELSE IF ~IsNone(c.sr) THEN <<Some(c.sr)[2], Some(c.sr)[1]>>
+              ELSE <<c.m * c.s[1], 4 * c.s[2] * Some(c.size)>>
+
 (* ---------------------------------------------------- Req: coordinate lookup *)
 (* generic in the order Le, so that the same definition judges the integer  *)
 (* model (IntLe) and the observed doubles (BLe)                              *)
